@@ -554,4 +554,5 @@ def rule_17_8(rep, fx, bodies):
     # ------------------------------------------------------------ R17.10 the reader selection with the security feature (two closures: plain and secured path)
     from rules import dispatch
     dispatch.run_rule(rep, fx, 'R17.10', 'default', floor=2)
+    dispatch.run_kinds(rep, fx, 'R17.11', 'security', prefix='', declare=True)
 
